@@ -21,7 +21,7 @@ CLAIMS = {
     "C04": ("spec/DocClean.tla, CMakeLex.tla/CMakeGen.tla, Aggregator.tla (witness programs)",
             "(a) TLC checks C04_IndentIrrelevant on clean_doc_lines for every block x indentation and replays indented/unindented pairs on the real function; (b) TLC checks that the same tokens under any trivia of the catalogue lex to the same tokens (RefAgree on the comment-rich menu), replayed on the real lexer/parser; (c) every witness program of the aggregator model is run through the real pipeline in a baseline layout and in seeded variant layouts (catalogue trivia between all tokens, re-indented doccomments, re-cased names, CRLF) and the pages compared byte for byte.",
             "trivia only between tokens with a whitespace kept between arguments; variants are a seeded sample of the layout space", "4 C04"),
-    "C05": ("spec/CMakeLex.tla, CMakeGen.tla, MC_C05.tla, TraceLex.tla, CMakeParse.tla",
+    "C05": ("spec/CMakeLex.tla, CMakeGen.tla, MC_C05.tla, TraceLex.tla, CMakeLang.tla, CMakeParse.tla, TraceParse.tla",
             "CMakeParse.tla models the parser between lexer and aggregator (token kinds -> accept/error and listener events) and TLC checks that it accepts exactly the language described by the parenthesis depth profile, with one command event per top-level command and the stream's direct-argument boundaries; every in-language token stream up to the bound is written out and must be accepted by the real Documenter with those boundaries. The generated lexer is modelled as the step machine ANTLR runs (parallel rules by derivatives, last-accept register, rule priority, non-greedy stop, EOF symbol, error recovery); TLC builds files from the productions of cmake-language(7) with boundaries known by construction and checks RefAgree; every file is run through the real lexer/parser/Documenter (acceptance, command sequence, argument texts and positions); token streams and error spans of the real lexer on fixtures, random modules, noise strings and the modules shipped with CMake are validated character step by character step by TLC (TraceLex.tla); corpus modules that CMake itself parses must be processed cleanly.",
             "class alphabet; bracket levels {0,1,2} in generation ({0,1,2,4,40,70,71} for the corpus); legacy constructs and BOM out of scope", "4 C05"),
     "C06": ("spec/CMinx.tla, CMakeParse.tla, CMakeLex.tla, CMakeGen.tla (InjectFault), MC_C05.tla",
